@@ -29,7 +29,7 @@ PROPERTY = "C05"
 LEVEL = "exploration"
 
 TLA_FIELDS = ("id", "readers", "whole", "blank", "seedclass", "outcome", "startok")
-FACT_FIELDS = ("errs", "mixed", "nodes", "consumed", "opanic")
+FACT_FIELDS = ("errs", "mixed", "nodes", "consumed", "opanic", "blank")
 MAX_REPLAYS_PER_SIGNATURE = 3
 
 
@@ -153,7 +153,7 @@ def run(ctx):
 
     # ------------------------------------------------- corpus + real loads
     vlib.write_ndjson(ctx.path("table.ndjson"), rows)
-    n = 60000 if thorough else 3000
+    n = 100000 if thorough else 6000
     repo = ctx.copy_repo()
     ctx.harness(["loader", "corpus", "--n", n, "--out", ctx.path("lin.ndjson"), "--table", ctx.path("table.ndjson"),
                  "--testdata", os.path.join(repo, "testdata") + "," + os.path.join(repo, "internal", "tree", "testdata")])
@@ -171,6 +171,11 @@ def run(ctx):
     if per_sig:
         ctx.notes.append("rejected events per signature: %s (at most %d replay files each)"
                          % (dict(per_sig), MAX_REPLAYS_PER_SIGNATURE))
+
+    # informational: the stricter per-reader-only reading of DESIGN.md (never a verdict)
+    if thorough:
+        strict = run_trace(ctx, events, "LoaderTrace (per-reader-only reading, informational)", cfg="LoaderTrace_strict.cfg")
+        ctx.cover(strict_reading_rejected_events=strict["nbad"], strict_reading_prescribed=strict["mustError"] + strict["mustRunner"])
 
     # --------------------------------- binding self-test: corrupted outcomes
     def cls(r):
@@ -232,9 +237,9 @@ def run(ctx):
                          "(judged by the oracle's facts)" % mismatch)
     usable = collections.Counter(e["usable"] for e in events)
 
-    def sample(e):
+    def sample(e, width=80):
         i = inputs[e["id"]]
-        return {"kind": e["kind"], "readers": [bytes.fromhex(h)[:80].decode("utf-8", "replace") for h in i["readers"]],
+        return {"kind": e["kind"], "readers": [bytes.fromhex(h)[:width].decode("utf-8", "replace") for h in i["readers"]],
                 "seed": bytes.fromhex(i["seed"])[:20].decode("utf-8", "replace"),
                 "oracle": [{f: r[f] for f in FACT_FIELDS} for r in e["readers"]], "outcome": e["outcome"]}
     picks = []
@@ -243,6 +248,12 @@ def run(ctx):
                    and len(e["readers"]) >= 1), None)
         if ev:
             picks.append(sample(ev))
+
+    probe_panics = [sample(e, 400) for e in events if e["usable"] in ("panic", "timeout")][:3]
+    if probe_panics:
+        ctx.notes.append("Next(0) panicked or hung on %d loaded valid scripts (recorded only; running a script is property C06's): "
+                         "see runner_next_probe_failures" % sum(1 for e in events if e["usable"] in ("panic", "timeout")))
+        ctx.cover(runner_next_probe_failures=[dict(p, readers=[r[:400] for r in p["readers"]]) for p in probe_panics])
 
     ctx.cover(
         evaluations=len(events),
